@@ -5,7 +5,7 @@ import os
 import random
 import time
 
-from common import (ToolError, cfg_text, ensure_built, load_known, log, parse_mc, run_harness, save_replay, seed, tlc,
+from common import (HangFound, ToolError, cfg_text, ensure_built, load_known, log, parse_mc, run_harness, save_replay, seed, tlc,
                     trace_line, validate_traces, write_evidence, workdir)
 
 # the model describes the code as it is now (both repairs are in /repo): see DESIGN.md section 6
@@ -249,7 +249,21 @@ def run_conc_check(prop, tier, replay=None, merge=False):
         nguided = add_guided(scen, prop, tier) if prop in ("C04", "C05", "C07", "C15") else 0
     log(f"[{prop}] {len(scen)} concurrent programs ({nguided} TLC-generated schedules among them)")
     t1 = time.time()
-    traces = run_harness(scen, prop, need_shim=False)
+    try:
+        traces = run_harness(scen, prop, need_shim=False)
+    except HangFound as hf:
+        # a call made outside the scheduled part (the initial operations, the restart at the end) never returned: reported with
+        # the program that was running (a hang is a violation of "all calls return", whichever property's program class hit it)
+        by = {json.dumps(s["id"]): s for s in scen}
+        for h in hf.hangs[:3]:
+            s = by.get(h["scenario"], {"id": h["scenario"]})
+            rp = save_replay(prop, {k: v for k, v in s.items() if not k.startswith("_")})
+            print(f"VIOLATION property={prop} replay={rp}")
+            log(f"[{prop}]   a call did not return within the watchdog time: program {h['scenario']} operation {h['op']}")
+        write_evidence(prop, tier, "model_checking",
+                       {"states": max(1, mc["states"]), "transitions": max(1, mc.get("transitions", 0)), "traces_validated_against_impl": 0,
+                        "samples": hf.hangs[:3], "hang": True}, time.time() - t0, len(hf.hangs), ["a call that does not return is a violation"])
+        return 1
     t2 = time.time()
     fails, st = validate_conc(traces)
     t3 = time.time()
